@@ -3,6 +3,7 @@ package connectutil
 import (
 	"errors"
 	"fmt"
+	"unicode/utf8"
 
 	"go.minekube.com/connect"
 	"go.minekube.com/connect/bedrockprincipal"
@@ -138,6 +139,11 @@ func ExtractSessionPrincipalWire(s *connect.Session) (*SessionPrincipalWire, err
 				return nil, fmt.Errorf("invalid session field encoding: %w", protowire.ParseError(n))
 			}
 			raw = raw[n:]
+			if (num == sessionFieldEndpointID || num == sessionFieldOrganizationID) && !utf8.Valid(v) {
+				// endpoint_id and organization_id are proto3 strings in the frozen
+				// contract; a protobuf parser that knows them rejects the message.
+				return nil, fmt.Errorf("session field %d is not valid UTF-8", num)
+			}
 			switch num {
 			case sessionFieldEndpointID:
 				setString(&w.EndpointID, string(v))
